@@ -63,6 +63,7 @@ func runC04(c *Check, w *World) {
 		}
 	}
 	ruleHistoryIndependence(c, w, tb, ef, "R04.H", val)
+	checkRESTEndpoints(c, w, tb, ef, "R04.REST", "/totp/validate")
 	c.Floor("R04.1", 1)
 	c.Floor("R04.2", 1)
 	c.Floor("R04.3", 2)
